@@ -907,6 +907,15 @@ func init() {
 			}
 			return m.closureBindings(st, f, target)[idx]
 		},
+		"holds": func(m *Machine, st *State, fr *Frame, instr ssa.Instruction, fn *ssa.Function, args []Value) Value {
+			return m.holdsGhost(st, args[0].(*Ptr), 2)
+		},
+		"holdsR": func(m *Machine, st *State, fr *Frame, instr ssa.Instruction, fn *ssa.Function, args []Value) Value {
+			return m.holdsGhost(st, args[0].(*Ptr), 1)
+		},
+		"sameMap": func(m *Machine, st *State, fr *Frame, instr ssa.Instruction, fn *ssa.Function, args []Value) Value {
+			return m.ctx.Eq(args[0].(*Term), args[1].(*Term))
+		},
 		"sameFunc": func(m *Machine, st *State, fr *Frame, instr ssa.Instruction, fn *ssa.Function, args []Value) Value {
 			return m.ctx.Eq(args[0].(*Term), args[1].(*Term))
 		},
@@ -1325,4 +1334,15 @@ func (m *Machine) onceKey(p *Ptr) *Term {
 		panic(unsupported("sync.Once embedded in a struct or array"))
 	}
 	return p.Ref
+}
+
+func (m *Machine) holdsGhost(st *State, mu *Ptr, mode int) Value {
+	k := lockKey(mu)
+	if m.assumingPre {
+		if st.locks[k] < mode {
+			st.locks[k] = mode
+		}
+		return m.ctx.T
+	}
+	return m.ctx.Bool(st.locks[k] >= mode)
 }
